@@ -754,6 +754,26 @@ impl Worker {
         let mut file = self.active_file.take();
         let mut file_set = ActiveFileSet::empty(&self.metrics, &self.dir);
 
+        // Read the set of existing files, so they can be reused or have retention applied
+        let read_file_set = |file_set: &mut ActiveFileSet| {
+            let _ = file_set
+                .read(&self.fs, &self.file_prefix, &self.file_ext)
+                .map_err(|err| {
+                    self.metrics.file_set_read_failed.increment();
+
+                    emit::warn!(
+                        rt: emit::runtime::internal(),
+                        "failed to files in read {path}: {err}",
+                        #[emit::as_debug]
+                        path: &file_set.dir,
+                        err,
+                    );
+
+                    err
+                });
+        };
+        let mut file_set_is_read = false;
+
         if file.is_none() {
             if let Err(err) = self.fs.create_dir_all(Path::new(&self.dir)) {
                 span.complete_with(emit::span::completion::from_fn(|span| {
@@ -771,21 +791,8 @@ impl Worker {
                 return Err(emit_batcher::BatchError::retry(err, batch));
             }
 
-            let _ = file_set
-                .read(&self.fs, &self.file_prefix, &self.file_ext)
-                .map_err(|err| {
-                    self.metrics.file_set_read_failed.increment();
-
-                    emit::warn!(
-                        rt: emit::runtime::internal(),
-                        "failed to files in read {path}: {err}",
-                        #[emit::as_debug]
-                        path: &file_set.dir,
-                        err,
-                    );
-
-                    err
-                });
+            read_file_set(&mut file_set);
+            file_set_is_read = true;
 
             if self.reuse_files {
                 if let Some(file_name) = file_set.current_file_name() {
@@ -819,6 +826,11 @@ impl Worker {
         let mut file = if let Some(file) = file {
             file
         } else {
+            // If the active file is being rolled then the set hasn't been read yet
+            if !file_set_is_read {
+                read_file_set(&mut file_set);
+            }
+
             // Leave room for the file we're about to create
             file_set.apply_retention(&self.fs, self.max_files.saturating_sub(1));
 
